@@ -104,7 +104,7 @@ def check(prop, tier):
             for x in inputs:
                 f.write(json.dumps(x) + "\n")
         pre = os.path.join(work, mode)
-        files, sums, aborts = run_shards("respdrive", [mode, ifile, pre, "--seed", str(seed()), "--fuzz", str(fuzz)],
+        files, sums, aborts = run_shards("respdrive", [mode, ifile, pre, "--seed", str(seed()), "--fuzz", str(fuzz)] + ([] if q else ["--huge"]),
                                          pre, NCPU, synth=known_abort_synth)
         if aborts:
             v.cov["process_deaths_in_code_under_test"] = aborts[:10]
